@@ -31,6 +31,7 @@ func docCase(c Case, e *env) (*docGen, string, string) {
 	case "C04X":
 	case "C02", "C03", "C04", "C07":
 		g.inlineJunk = e.prop == "C04" || e.prop == "C02"
+		g.layoutNoise = e.prop == "C07" || e.prop == "C02"
 		// attribute noise (handlers, id/class, data-*, aria-hidden="false" ...) on half of the pages: none of it
 		// changes what is visible or how the page nests
 		g.noise = c.ID%2 == 1
